@@ -373,6 +373,8 @@ class C24(Prop):
         'CylcModel.C24.visit_reports_first',
         'CylcModel.C24.rejected_before_evaluation',
         'CylcModel.C24.evaluated_only_if_whitelisted',
+        'CylcModel.C24.history_independent',
+        'CylcModel.C24.rejected_after_any_history',
         'CylcModel.C24.pipeline_shape',
         'CylcModel.C24.completion_whitelist_exact',
         'CylcModel.C24.dangerous_disjoint',
@@ -388,7 +390,8 @@ class C24(Prop):
         'partial: (a) for every tree, whitelist and environment the visitor accepts iff every node is an instance '
         'of a whitelisted class, reports the first offender, and a tree with any non-whitelisted node is rejected '
         'with no evaluation (visit_rejects, visit_reports_first, rejected_before_evaluation, '
-        'evaluated_only_if_whitelisted); (b) over the generated tables: CompletionEvaluator accepts exactly 7 '
+        'evaluated_only_if_whitelisted), and the answer to a call does not depend on the calls made before it in the '
+        'same process (history_independent, rejected_after_any_history: the model keeps no state); (b) over the generated tables: CompletionEvaluator accepts exactly 7 '
         'classes out of all class names, none of the dangerous constructs, and in fact only and/or over names '
         '(completion_whitelist_exact, dangerous_disjoint, completion_accepts_only_fragment); every '
         'restricted_evaluator call site rejects calls/lambdas/comprehensions/walrus (all_evaluators_reject_calls, '
@@ -420,7 +423,9 @@ class C24(Prop):
             'evaluators {live CompletionEvaluator, live RankingExpressionEvaluator, 8 custom whitelists incl. superclass '
             'entries} (exhaustive over the catalogue), texts that are not expressions, random and/or expressions over '
             'supplied / unsupplied / builtin / reserved names with random truth values, random nested expressions over '
-            'all syntax, random whitelists; non-trivial = not a bare name; distinct = distinct (evaluator, text, variables)')
+            'all syntax, random whitelists; histories of 3 calls A, B, A made in ONE process with the same text (permissive '
+            'evaluator first then strict, strict first, repeated call with different truth values) over catalogue x '
+            'placements x ordered evaluator pairs (all 90 ordered pairs in the thorough tier), each call judged as if made alone; non-trivial = not a bare name; distinct = distinct (evaluator, text, variables)')
     workers = 16
 
     def setup(self):
@@ -497,6 +502,7 @@ class C24(Prop):
         for text in NOT_EXPRESSIONS:
             for ev, wl in evs[:3]:
                 yield self.mk(ev, text, self.std_vars(0), wl)
+        yield from self.gen_histories(tier, rng, evs, subs)
         n_frag, n_rand, n_wl = {'quick': (4000, 3000, 1500), 'thorough': (60000, 45000, 20000)}.get(
             tier, (80000, 60000, 25000))
         all_classes = [n for n, _ in ast_classes()]
@@ -521,6 +527,44 @@ class C24(Prop):
             text = rand_tree(rng, rng.randint(1, 3)) if rng.random() < 0.7 else rand_frag(rng, 3, SUPPLIED[:4] + ['len'])
             yield self.mk('custom', text, [(n, rng.random() < 0.5) for n in rng.sample(SUPPLIED, rng.randint(1, 6))], wl)
 
+    def mk_seq(self, text, steps):
+        """steps: [(ev, wl, vars)] - calls made in this order in one process"""
+        return {'seq': [self.mk(ev, text, vs, wl) for ev, wl, vs in steps]}
+
+    def gen_histories(self, tier, rng, evs, subs):
+        """A, B, A on the same text in one process, for ordered evaluator pairs (A, B)."""
+        all_pairs = [(a, b) for a in range(len(evs)) for b in range(len(evs)) if a != b]
+        if tier == 'quick':
+            # permissive -> strict, strict -> permissive, and pairs of custom whitelists
+            # evs: 0 completion, 1 ranking, 2.. custom (8 = ['AST'] accepts everything, 4 = all expr)
+            pairs = [(1, 0), (8, 0), (4, 0), (3, 0), (2, 0), (0, 1), (0, 8), (0, 4), (8, 1), (4, 1), (1, 8),
+                     (8, 2), (2, 8), (8, 3), (4, 3), (8, 9), (9, 8), (1, 2), (8, 6), (8, 7)]
+            ctxs = ['{X}', '{t} or {X}', '{f} and {X}', '{X} and {t}']
+        else:
+            pairs = all_pairs
+            ctxs = ['{X}', '{t} or {X}', '{f} and {X}', '{X} and {t}', '({t} and ({f} or {X})) or {t}']
+        k = 0
+        for ci, tpl in enumerate(CATALOGUE):
+            for xi, ctx in enumerate(ctxs):
+                a, b, c = subs[(ci + xi) % len(subs)]
+                text = ctx.format(X='(' + tpl.format(a=a, b=b, c=c) + ')', t='succeeded', f='failed')
+                for pa, pb in pairs:
+                    k += 1
+                    v1 = self.std_vars(k)
+                    v1[0], v1[1] = ('succeeded', True), ('failed', False)
+                    v3 = [(n, not t) for n, t in v1]       # third call: same text, other truth values
+                    v3[0], v3[1] = ('succeeded', True), ('failed', False)
+                    yield self.mk_seq(text, [(evs[pa][0], evs[pa][1], v1), (evs[pb][0], evs[pb][1], v1),
+                                             (evs[pa][0], evs[pa][1], v3)])
+        # and/or expressions of names: the value must follow the variables of the current call
+        for _ in range(300 if tier == 'quick' else 5000):
+            text = rand_frag(rng, rng.randint(1, 3), SUPPLIED[:4] + ['nope', 'len', '__builtins__'])
+            steps = []
+            for _call in range(rng.randint(2, 4)):
+                ev, wl = rng.choice([evs[0], evs[0], evs[1], evs[3], evs[8]])
+                steps.append((ev, wl, [(n, rng.random() < 0.5) for n in rng.sample(SUPPLIED[:4], rng.randint(0, 4))]))
+            yield self.mk_seq(text, steps)
+
     # ------------------------------------------------------------ implementation
     def evaluator(self, inp):
         if inp['ev'] == 'completion':
@@ -535,6 +579,12 @@ class C24(Prop):
         return ev
 
     def impl(self, inp):
+        if 'seq' in inp:
+            # a history: the calls are made one after the other in this process
+            return {'seq': [self.impl_call(c) for c in inp['seq']]}
+        return self.impl_call(inp)
+
+    def impl_call(self, inp):
         import warnings
         warnings.simplefilter('ignore')
         ev = self.evaluator(inp)
@@ -609,12 +659,20 @@ class C24(Prop):
             return pool.map(_impl_worker, inputs, chunksize=max(1, len(inputs) // (self.workers * 8)))
 
     def equal(self, model_out, obs):
+        if 'seq' in model_out:
+            ms, os_ = model_out['seq'], (obs.get('seq') if isinstance(obs, dict) else None) or []
+            return len(ms) == len(os_) and all(self.equal(m, o) for m, o in zip(ms, os_))
         if model_out.get('res') == 'unmodelled':
             return obs.get('res') in ('value', 'nameerror', 'raise')
         return model_out == obs
 
     # ------------------------------------------------------------------ evidence
     def classify(self, inp, obs):
+        if 'seq' in inp:
+            calls = inp['seq']
+            evs = '>'.join(c['ev'][:4] if c['ev'] != 'custom' else 'cust' for c in calls[:3])
+            res = ','.join(o['res'] for o in obs['seq'][:3])
+            return f'history/{evs}/{res}'
         t = inp['tree']
         if t is not None and len(kinds_of(t)) <= 3:
             return None        # a bare name / constant
@@ -626,6 +684,10 @@ class C24(Prop):
         return inp['ev'] + '/' + res
 
     def neighbours(self, inp, rng):
+        if 'seq' in inp:
+            calls = inp['seq']
+            # the same calls in the opposite order, and each call alone
+            return [{'seq': list(reversed(calls))}] + [dict(c) for c in calls]
         out = []
         vs = [(n, t) for n, t in inp['vars']]
         for ev, wl in [('completion', None), ('ranking', None)]:
